@@ -54,6 +54,22 @@ def _crc_chained(v: Any) -> bool:
     return False
 
 
+def _seed_dropped_when_zero(v: Any) -> Any:
+    """crc_hqx(data, running or K): the running CRC is replaced by the constant whenever it is 0."""
+    if isinstance(v, tuple):
+        if v[:2] == ("app", "binascii.crc_hqx") and len(v) == 4:
+            sd = v[3]
+            if isinstance(sd, tuple) and sd[:1] == ("or",) and len(sd) == 3:
+                first, second = (x[1] if isinstance(x, tuple) and x[:1] == ("valof",) else x for x in sd[1:])
+                if T.is_c(second) and isinstance(second[1], int) and second[1] != 0 and isinstance(first, tuple) and first[:2] == ("app", "binascii.crc_hqx"):
+                    return ("or", first, second)
+        for x in v:
+            r = _seed_dropped_when_zero(x)
+            if r is not None:
+                return r
+    return None
+
+
 def run(prog: Program, rep: Report, tier: str) -> None:
     rep.rule("R4.1", "normal form of the signer equals p ++ LE16(crc_hqx(p,0x1021)) ++ LE16(crc_hqx(LE16bytes(c1) ++ 0x30*32, 0x1021))", 1)
     rep.rule("R4.2", "the parameter is returned unmodified as prefix; no clock, global, attribute or I/O is read (deterministic)", 2)
@@ -96,6 +112,15 @@ def run(prog: Program, rep: Report, tier: str) -> None:
         if not same:
             arith_ops = sorted(a for a in _apps(o.value, set()) if a in ("mod", "floordiv", "and", "or", "xor", "rshift", "lshift", "mul", "add", "sub", "builtins.bytes", "divmod", "pow"))
             chained = _crc_chained(o.value)
+            dropped = _seed_dropped_when_zero(o.value)
+            if dropped is not None:
+                # a recognised skeleton (CRC continued over a suffix) with a deviating part: `crc or K` is K when the
+                # running CRC is 0.  crc_hqx reaches every 16-bit value on two or more bytes, 0 included, and for fixed
+                # data it is injective in its initial value, so for such a packet the result differs from the chained CRC.
+                rep.bad("R4.1", f"normal-form path {k}", where,
+                        f"the CRC is continued from `{T.show(dropped)[:160]}`: when the running CRC is 0 (some packets' CRC is) the continuation restarts from {dropped[2][1]:#x} "
+                        f"instead of 0, and crc_hqx is injective in its initial value - the signature of such a packet is wrong", key="R4.1|seed-or")
+                continue
             if arith_ops or chained:
                 # the signature is re-expressed through integer arithmetic on the CRC values (x % 256, x >> 8, ...) or by
                 # chaining crc_hqx over pieces: deciding that such a form equals LE16(crc) ++ LE16(crc') needs arithmetic
